@@ -617,6 +617,14 @@ func c06Run(r *vkit.Run) {
 		}
 		visit(c06Input{Line: "!!!", Pre: true, Stage: pat, Kind: "nomatch", Parser: "regexp"})
 	}
+	// a leading or trailing `.*` is not redundant when groups follow or precede it: it decides where they match
+	for _, pat := range []string{`.*/(?P<a>[^/ ]+)`, `.*(?P<b>\\d)`, `(?P<a>\\w+).*`, `.*=(?P<z>\\w*).*`, `.* (?P<a>\\S+) .*`} {
+		for _, line := range []string{"GET /static/img/logo.png 200", "a=1 b=22 c=333", "x", "/a/b /c/d", "k=v"} {
+			for _, pre := range []bool{false, true} {
+				visit(c06Input{Line: line, Pre: pre, Stage: pat, Kind: "wellformed", Parser: "regexp"})
+			}
+		}
+	}
 	// expressions whose overall match depends on preference order (leftmost-first, not leftmost-longest): an alternation
 	// whose earlier branch is a prefix of a later one, and lazy quantifiers, in tail position
 	for _, pat := range []string{`level=(?P<a>warn|warning)`, `id=(?P<b>\d+?)`, `(?P<a>x|xy)(?P<z>y?)`, `(?P<a>\w*?)`} {
